@@ -253,3 +253,83 @@ def clamp_proof(facts, f, line):
         if not found:
             return None
     return "A10: the index is clamped to the length of the same vector (min(x, len)) immediately before"
+
+
+# ------------------------------------------------------------------------------------------
+# A11 - a byte offset that is the position of the k-th character of the very string it is used on
+
+def _first_component_closure(c):
+    """|(at, _)| at"""
+    if c.get("k") != "Closure" or len(c.get("params", [])) != 1:
+        return False
+    p = c["params"][0]
+    while p.get("p") in ("Ref", "Deref"):
+        p = p["sub"]
+    if p.get("p") != "Tuple" or not p.get("pats") or p["pats"][0].get("p") != "Bind":
+        return False
+    b = _tail(c["body"])
+    return b.get("k") == "Path" and b.get("lid") == p["pats"][0]["lid"]
+
+
+def _resolve_local(f, e, depth=0):
+    """follow immutable `let x = expr;` once or twice"""
+    while isinstance(e, dict) and e.get("k") == "Path" and e.get("res") == "Local" and depth < 3:
+        init = None
+        for n in walk(f["body"]):
+            if n.get("s") == "Let" and n.get("pat", {}).get("p") == "Bind" and n["pat"].get("lid") == e["lid"] and not n["pat"].get("mut") and "init" in n:
+                init = n["init"]
+        if init is None:
+            return e
+        e, depth = init, depth + 1
+    return e
+
+
+def _char_boundary_of(f, e, base):
+    """e = BASE.char_indices().nth(k).map_or(BASE.len(), |(at, _)| at)   (or .map(|(at, _)| at).unwrap_or(BASE.len())):
+    the byte position of the k-th character of BASE, or its length - always a character boundary <= len"""
+    e = _resolve_local(f, e)
+    if not isinstance(e, dict) or e.get("k") != "MethodCall":
+        return False
+    if e["m"] == "map_or" and len(e.get("args", [])) == 2:
+        default, clo, src = e["args"][0], e["args"][1], e["recv"]
+    elif e["m"] == "unwrap_or" and len(e.get("args", [])) == 1 and e["recv"].get("k") == "MethodCall" and e["recv"]["m"] == "map" \
+            and len(e["recv"].get("args", [])) == 1:
+        default, clo, src = e["args"][0], e["recv"]["args"][0], e["recv"]["recv"]
+    else:
+        return False
+    if not _is_len_of(_resolve_local(f, default), base) or not _first_component_closure(clo):
+        return False
+    if not (src.get("k") == "MethodCall" and src["m"] == "nth" and src["recv"].get("k") == "MethodCall" and src["recv"]["m"] == "char_indices"):
+        return False
+    return place_key(src["recv"]["recv"]) == base
+
+
+def boundary_sites(facts, f):
+    """-> lines of `S.split_off(at)` / `S.split_at(at)` / `S.truncate(at)` whose offset is such a character boundary of S, plus the
+    lines of the char_indices() / len() calls that take part in computing it (the whole idiom is character-exact although
+    every single call is byte-indexed)"""
+    lines = set()
+    if "body" not in f:
+        return lines
+    for n in walk(f["body"]):
+        if n.get("k") == "MethodCall" and n.get("m") in ("split_off", "split_at", "truncate") and n.get("args") and \
+                "str" in str(n.get("recvty", "")).lower():
+            base = place_key(n["recv"])
+            if base is None or not _char_boundary_of(f, n["args"][0], base):
+                continue
+            # no statement between the computation and the use changes the string: both are in one block, nothing in between
+            # mentions a mutating method of BASE
+            lines.add(n.get("ln"))
+            e = _resolve_local(f, n["args"][0])
+            lns = [m.get("ln") for m in walk(e) if isinstance(m, dict) and m.get("ln")]
+            if lns:
+                lines |= set(range(min(lns), max(lns) + 1))      # a method chain written over several lines
+            d = e["args"][0] if e["m"] == "map_or" else e["args"][0]
+            if d.get("k") == "Path":
+                for x in walk(f["body"]):
+                    if x.get("s") == "Let" and x.get("pat", {}).get("lid") == d.get("lid"):
+                        for m in walk(x["init"]):
+                            if m.get("k") == "MethodCall" and m.get("m") == "len":
+                                lines.add(m.get("ln"))
+    lines.discard(None)
+    return lines
